@@ -360,6 +360,12 @@ def t_roundtrip(ctx, g, shard, n):
     drive(ctx, f"rt{g}{shard}", s_roundtrip(g), lambda c: o_roundtrip(ctx, c), n, ex)
 
 
+def t_fuzz(ctx, worker, runs, empty):
+    """atheris campaign over the byte-level decoders with this module's oracle inside the target."""
+    from vf.harness import run_fuzz_campaign
+    run_fuzz_campaign(ctx, "c11", runs, ctx.seed_for("fuzz", worker), empty_corpus=empty)
+
+
 def tasks(tier):
     selfcheck()
     q = tier == "quick"
@@ -370,4 +376,7 @@ def tasks(tier):
         out.append(Task(f"words-G2-{s}", "t_words", g="G2", shard=s, n=250 if q else 8000))
         out.append(Task(f"rt-G1-{s}", "t_roundtrip", g="G1", shard=s, n=250 if q else 8000))
         out.append(Task(f"rt-G2-{s}", "t_roundtrip", g="G2", shard=s, n=120 if q else 4000))
+    if not q:
+        for w in range(10):
+            out.append(Task(f"fuzz-{w}", "t_fuzz", worker=w, runs=20000, empty=w >= 8))
     return out
